@@ -95,6 +95,9 @@ PROGRAMS = {
         ["delay", "g", 20], ["add_eom", "g", 16, 0.0],
         ["modify_eom", "g", 1.0, 0.0, 3.0, {"correct_phase_drift": True}], ["add_eom", "g", 16, 1.0],
         ["disable_eom", "g", {"correct_phase_drift": True}], ["add", "g", ["cp", 52, 1.0, 0.0, 0.5]]]),
+    # a virtual device with a default noise model
+    "noise_device": dict(device="mock_noise", prog=[
+        ["declare", "g", "rydberg_global"], ["add", "g", ["cp", 16, S("a0", lo=0, hi=10), S("d0", "fix", lo=-20, hi=20), 0.75]]]),
     # EOM pulses with 4, 5 and 6 POSITIONAL arguments (post_phase_shift, protocol, correct_phase_drift given by position)
     "eom_positional": dict(device="virt", prog=[
         ["declare", "g", "ryd_glob"], ["add", "g", ["cp", 100, 1.0, 0.0, 0.0]], ["enable_eom", "g", 2.0, 0.0, -1.0],
